@@ -246,7 +246,8 @@ def _to_case_plan(rm):
             mod = importlib.import_module(rm)
             plan = list(mod._plan("quick", 0))
             zero = [c for c in plan if c.get("seed") == 0 or c.get("cli_seed") == 0 or "seed0" in str(c) or "'seed': 0" in str(c)]
-            return (zero[:8] + [c for c in plan if c not in zero][:10])
+            # (only ever replayed behind a refuted / undecided obligation, so the whole quick plan is affordable)
+            return (zero + [c for c in plan if c not in zero])[:200]
         except Exception:
             return None
     return to_case
@@ -287,6 +288,9 @@ def units(prop):
         return unit
 
     out = []
+    if prop == "C09":
+        out.append(mk("write_loop", "command_line", "signals_to_torch_feat_dir", sel_write_loop, "write-loop", contract_write_loop,
+                      [("manifest", setup_write_loop(True)), ("no_manifest", setup_write_loop(False))], "rtc.c09"))
     if prop == "C10":
         out.append(mk("write_loop", "command_line", "signals_to_torch_feat_dir", sel_write_loop, "write-loop", contract_write_loop,
                       [("manifest", setup_write_loop(True)), ("no_manifest", setup_write_loop(False))], "rtc.c10"))
